@@ -92,6 +92,16 @@ fn alphabet(tier: Tier) -> Vec<Op> {
             ops.push(Op::Compile(g.sql));
         }
     }
+    // composed terms: every unary constructor over the base tables (incl. unaliased / repeated expressions),
+    // thorough: also the depth-1 joins
+    for rel in crate::sqlgen2::level1_unary(true) {
+        ops.push(Op::Compile(rel.sql));
+    }
+    if tier == Tier::Thorough {
+        for rel in crate::sqlgen2::level1_binary() {
+            ops.push(Op::Compile(rel.sql));
+        }
+    }
     for s in [
         "SELECT random() AS r, id FROM users",
         "SELECT id, id FROM users",
@@ -157,6 +167,23 @@ fn part_a(ctx: &Ctx, r: &mut Report) {
             }
         }
     }
+    // histories made of the operation itself: op ; op and op ; op ; op without a reset in between (a name taken
+    // from a counter keyed by the node's own content only moves when the SAME text is compiled again)
+    for (i, op) in ops.iter().enumerate() {
+        namer::reset();
+        let _ = op.run(&relations);
+        for k in 1..=2 {
+            let again = op.run(&relations);
+            r.evaluations += 1;
+            if again != baseline[i] {
+                let mut d = diff_summary(&baseline[i], &again);
+                d["history"] = json!(vec![op.id(); k]);
+                flag(r, "depends-on-earlier-compilations", op, d);
+                break;
+            }
+        }
+    }
+    r.add_count("self_histories", 2 * ops.len() as u64);
     // BFS over counter states
     let depth = ctx.tier.pick(2, 3);
     let mut seen: BTreeSet<Snapshot> = BTreeSet::new();
@@ -331,6 +358,7 @@ fn part_b(ctx: &Ctx, r: &mut Report) {
         ("compile(plain) || ids [field,map]", vec![mk_compile("SELECT age + 1 AS a, city FROM users WHERE id > 1"), mk_ids(vec!["field", "map", "field"])]),
         ("compile(dup-alias) || compile(dup-alias)", vec![mk_compile("SELECT id, id FROM users"), mk_compile("SELECT id, id FROM users")]),
         ("compile(dup-expr) || compile(having) || ids [id,field]", vec![mk_compile("SELECT age + 1, age + 1 FROM users"), mk_compile("SELECT city, count(*) FROM users GROUP BY city HAVING count(*) > 1"), mk_ids(vec!["id", "field"])]),
+        ("compile(dup-expr) || compile(dup-expr)", vec![mk_compile("SELECT age + 1, city, age + 1 FROM users"), mk_compile("SELECT age + 1, city, age + 1 FROM users")]),
         ("compile(values) || compile(values)", vec![mk_compile("SELECT a FROM (VALUES (1), (2)) AS t(a)"), mk_compile("SELECT a FROM (VALUES (1), (2)) AS t(a)")]),
         ("compile(random()) || compile(plain)", vec![mk_compile("SELECT id FROM users WHERE random() < 0.5"), mk_compile("SELECT age + 1 AS a, city FROM users WHERE id > 1")]),
         ("compile(join) || compile(aggregate)", vec![mk_compile("SELECT u.id, o.amount FROM users u JOIN orders o ON u.id = o.user_id"), mk_compile("SELECT city, count(*) AS c FROM users GROUP BY city")]),
